@@ -2,7 +2,7 @@
    Full-strength statement: C14 (see DESIGN.md section 7) (Cluster/Statements.v). Proved so far: the theorems below; what is
    not yet proved is decided on every run by the lock-step co-simulation (model = implementation on every
    explored schedule) together with the monitors run on the implementation's own observations. *)
-From RaftV Require Import Cluster.Statements Proofs.RVSpec Proofs.AESpec.
+From RaftV Require Import Cluster.Statements Proofs.RVSpec Proofs.AESpec Proofs.ReadSpec.
 Open Scope N_scope.
 
 (* becomeFollower (every term change, every step-down) never touches the commit index, the applied index, the
@@ -10,3 +10,12 @@ Open Scope N_scope.
 Theorem C14_step_down_frame : forall now n l t, vol (become_follower now n l t) = vol n.
 Proof. exact vol_become_follower. Qed.
 Print Assumptions C14_step_down_frame.
+
+(* NewRaft + Start over the directory of a process that died at ANY point (any volatile state, frozen at any storage
+   write): the node comes back with exactly the term and vote that were last persisted, and is not frozen. *)
+Theorem C14_restart_reads_back_term_and_vote : forall now n,
+  let n' := restart_after_crash now n in
+  n_term n' = n_pterm n /\ n_vote n' = n_pvote n /\ n_pterm n' = n_pterm n /\ n_pvote n' = n_pvote n /\
+  n_frozen n' = false /\ n_id n' = n_id n.
+Proof. exact restart_reads_back. Qed.
+Print Assumptions C14_restart_reads_back_term_and_vote.
